@@ -1,6 +1,6 @@
 (** C15 -- script arguments, functions, source, exit statuses. Statements only. *)
 From Cicada Require Import Base.Chars Base.Peg Gen.LocustGrammar Model.Script Model.ScriptAst Model.Args Model.ShellScript
-  Proofs.ArgsProofs Proofs.SetEProofs Proofs.ScriptProofs Proofs.ShellProofs Proofs.ShellCallsProofs Proofs.ShellFlagProofs Proofs.LocustParse Proofs.ShellTextProofs Proofs.ShellSourceProofs Proofs.LocustIndent Proofs.ShellIndentProofs Proofs.ShellRefEqProofs Proofs.ShellAndOrProofs.
+  Proofs.ArgsProofs Proofs.SetEProofs Proofs.ScriptProofs Proofs.ShellProofs Proofs.ShellCallsProofs Proofs.ShellFlagProofs Proofs.LocustParse Proofs.ShellTextProofs Proofs.ShellSourceProofs Proofs.LocustIndent Proofs.ShellIndentProofs Proofs.ShellRefEqProofs Proofs.ShellAndOrProofs Proofs.ShellRef3EqProofs.
 From Coq Require Import ZArith String Ascii.
 
 Definition S2 (s : string) : str := map N_of_ascii (list_ascii_of_string s).
@@ -853,6 +853,13 @@ Proof.
   - vm_compute. reflexivity.
 Qed.
 
+(** 3m. Without `source` lines the reference with the function table as state (3i) is the flag-state reference
+    (3g), with the table unchanged -- for any file table (round 9d; Proofs/ShellRef3EqProofs.v). *)
+Theorem C15_refl3_is_refl : forall ext rfiles rt fuel ls e last e' tr st,
+  refl ext rt fuel ls e last = Some (e', tr, st) ->
+  refl3 ext rfiles fuel ls e rt last = Some (e', rt, tr, st).
+Proof. exact refl3_refl. Qed.
+
 (** The property, in full, and its refutation on the faithful model (what is left: a token
     holding a newline is not expanded -- first clause, stated for ALL tokens). *)
 Definition C15_full : Prop :=
@@ -929,6 +936,7 @@ Print Assumptions C15_sete_rest_of_body.
 Print Assumptions C15_sete_calls_trace.
 Print Assumptions C15_sete_calls_script.
 Print Assumptions C15_first_failure.
+Print Assumptions C15_refl3_is_refl.
 Print Assumptions C15_sete_andor_trace.
 Print Assumptions C15_sete_andor_trace_nonvacuous.
 Print Assumptions C15_refl_is_upto_fail.
